@@ -81,6 +81,14 @@ CONTROLS = [
         (PPF, '                            strip_comments,\n                            resolve_depth + 1,\n                            include_depth,', '                            strip_comments,\n                            resolve_depth,\n                            include_depth,', 1)]),
     ('x9-flags-swapped', 'X9', 'syn', 'swapped', [(PPF, '            include_paths,\n            ignore_include,\n            strip_comments,\n            resolve_depth,', '            include_paths,\n            strip_comments,\n            ignore_include,\n            resolve_depth,', 1)]),
     ('x10-include-defines-dropped', 'X10', 'syn', 'defines-not-adopted', [(PPF, '                defines = new_defines;\n                ret.merge(include);', '                ret.merge(include);', 1)]),
+    ('x10-expansion-defines-wildcard', 'X10', 'syn', 'expansion-defines-not-adopted', [(PPF,
+        '                if let Some((text, origin, new_defines)) = resolve_text_macro_usage(', '                if let Some((text, origin, _)) = resolve_text_macro_usage(', 1),
+        (PPF, '                    ret.push(&text, origin);\n                    defines = new_defines;', '                    ret.push(&text, origin);', 1)]),
+    ('x21-quotes-before-blanks', 'X21', 'syn', 'include-name:TextMacroUsage:name-not-bare', [(PPF,
+        "let p = p.trim().trim_matches('\"');", "let p = p.trim_matches('\"').trim();", 1)]),
+    ('w2-flag-widens-ignore-include', 'W2', 'syn', 'parse_sv_str:mode-flag-misused', [(API,
+        '        pre_defines,\n        include_paths,\n        ignore_include,\n        false, // strip_comments\n        0, // resolve_depth',
+        '        pre_defines,\n        include_paths,\n        ignore_include || allow_incomplete,\n        false, // strip_comments\n        0, // resolve_depth', 1)]),
     ('x11-include-unguarded', 'X11', 'syn', 'open-unguarded', [(PPF, 'NodeEvent::Enter(RefNode::IncludeCompilerDirective(x)) if !ignore_include => {', 'NodeEvent::Enter(RefNode::IncludeCompilerDirective(x)) => {', 1)]),
     ('x12-search-reversed', 'X12', 'syn', 'search-order', [(PPF, '                    for include_path in include_paths {', '                    for include_path in include_paths.iter().rev() {', 1)]),
     ('p2-utf8-error-without-path', 'P2', 'syn', 'read-error', [(PPF, 'Err(Error::ReadUtf8(PathBuf::from(path.as_ref())))', 'Err(Error::ReadUtf8(PathBuf::new()))', 1)]),
